@@ -190,7 +190,36 @@ theorem dot_write_faithful (pieces : List (List UInt8)) (script : List Serial.Ev
   subst hp hs
   exact writeDotPieces_fail_first p ps s hne
 
+/-- the model's sink export cuts the text into the `write_all` pieces of `format_args!` (`piecesOf`); they are a
+    division of the bytes of the text, so everything above applies to it -/
+theorem dot_write_pieces (ss : List Stmt) : (piecesOf ss).flatten = textBytes (render ss) :=
+  piecesOf_flatten ss
+
+/-- **order of the code on invalid Bdds.** Non-empty node vector, right number of names, but some decision node's
+    variable has no name (`to_dot_string` panics). The export into a sink writes, piece by piece, everything up to
+    the first such node (`namedPrefix`); a sink error met on the way is returned as `Err` (no panic) with exactly
+    what was accepted before it; only if all these writes succeed does the export panic. In particular a hard error
+    of the first `write` call is always returned with nothing written. -/
+theorem dot_write_invalid_order (A : Arr) (names : List String) (pruned : Bool) (script : List Serial.Ev)
+    (h0 : A.size ≠ 0) (hn : names.length = numVars A) :
+    ((namedPrefix A names).length ≠ (innerPtrs A).length →
+      writeDotIO A names pruned script =
+        (let r := writeDotPieces (piecesOf (preamble A pruned ++
+            (namedPrefix A names).flatMap (nodeStmts A names pruned))) script
+         if r.1 then .panic "index out of bounds: var_names[var]" else .ok r)) ∧
+    ((namedPrefix A names).length = (innerPtrs A).length →
+      writeDotIO A names pruned script = .ok (writeDotPieces (piecesOf (stmtsOf A names pruned)) script)) ∧
+    (∀ s, script = .fail :: s → writeDotIO A names pruned script = .ok (false, [])) :=
+  ⟨writeDotIO_bad A names pruned script h0 hn, writeDotIO_good A names pruned script h0 hn,
+    fun s hs => hs ▸ writeDotIO_fail_first A names pruned s h0 hn⟩
+
 /-! ## non-vacuity -/
+
+/-- the invalid diagram of `B.AlgoEq3Dot.discrepancy_example`: one variable, node 2 decides on variable 5; the sink
+    fails at once: `Err`, nothing written (the code's behaviour), although `to_dot_string` panics -/
+example : writeDotIO #[⟨1, 0, 0⟩, ⟨1, 1, 1⟩, ⟨5, 0, 1⟩] ["x"] false [.fail] = .ok (false, []) ∧
+    ∃ m, toDotString #[⟨1, 0, 0⟩, ⟨1, 1, 1⟩, ⟨5, 0, 1⟩] ["x"] false = .panic m :=
+  ⟨writeDotIO_fail_first _ _ _ _ (by decide) (by decide), ⟨_, rfl⟩⟩
 
 /-- a sink that accepts 7 bytes per call with interruptions satisfies the hypothesis -/
 example : Serial.ScriptOk [.give 7, .interrupted, .give 1, .interrupted, .give 4096] := by
